@@ -141,10 +141,38 @@ def regenerate(which=None):
     return res
 
 
+COQPROJECT_HEADER = """-R . GS
+-arg -w -arg -notation-overridden,-deprecated-hint-without-locality,-deprecated-instance-without-locality,-ambiguous-paths,-deprecated-syntactic-definition
+"""
+
+
+def coq_files():
+    """all .v files of the development, in dependency-friendly order: lib/FILES, gen/*.v, then every
+    <dir>/FILES (one file name per line, in build order), then props/*.v"""
+    files = []
+    for d in ["lib"] + sorted(x for x in os.listdir(COQ) if os.path.isdir(os.path.join(COQ, x))
+                               and x not in ("lib", "gen", "props", "extract")):
+        fl = os.path.join(COQ, d, "FILES")
+        if os.path.exists(fl):
+            for ln in open(fl).read().split():
+                if ln.endswith(".v") and os.path.exists(os.path.join(COQ, d, ln)):
+                    files.append("%s/%s" % (d, ln))
+        if d == "lib":
+            files += sorted("gen/" + f for f in os.listdir(os.path.join(COQ, "gen")) if f.endswith(".v"))
+    files += sorted("props/" + f for f in os.listdir(os.path.join(COQ, "props")) if f.endswith(".v"))
+    return files
+
+
+def write_coqproject():
+    content = COQPROJECT_HEADER + "\n".join(coq_files()) + "\n"
+    return write_if_changed(os.path.join(COQ, "_CoqProject"), content)
+
+
 def coq_make(targets, timeout=1500, jobs=16):
     """make the given .vo targets (paths relative to coq/).  Returns (ok, output)."""
     with Lock("coq"):
-        if not os.path.exists(os.path.join(COQ, "Makefile")) or (
+        changed = write_coqproject()
+        if changed or not os.path.exists(os.path.join(COQ, "Makefile")) or (
             os.path.getmtime(os.path.join(COQ, "Makefile")) < os.path.getmtime(os.path.join(COQ, "_CoqProject"))
         ):
             rc, out = sh("coq_makefile -f _CoqProject -o Makefile", cwd=COQ)
@@ -214,7 +242,7 @@ def build_driver(tag, timeout=600):
         for m in re.finditer(r"From GS Require Import ([^.]+)\.", src):
             deps += m.group(1).split()
         targets = []
-        proj = open(os.path.join(COQ, "_CoqProject")).read().split()
+        proj = coq_files()
         for d in deps:
             for p in proj:
                 if p.endswith("/" + d + ".v"):
@@ -504,6 +532,11 @@ class Ctx:
             notes=self.notes,
             known_findings_hit=[k["key"] for k in self.known],
         )
+        if not self.discharged:
+            # failing run: fall back to the exploration-style keys so the file stays schema-valid
+            cov["proof_obligations_total"] = cov.pop("obligations")
+            cov.pop("discharged")
+            cov["evaluations"] = max(1, cov["evaluations"])
         if extra:
             cov.update(extra)
         ev = dict(property_id=self.pid, tier=self.tier, seed=int(self.seed), level="proof", coverage=cov,
@@ -527,6 +560,8 @@ class Ctx:
 
 
 def load_known_findings():
+    """known_findings.json: {"findings": [{"property","key","status": "open"|"fixed","what",...}]}.
+    Only status "open" suppresses (turns a violation with that exact key into a KNOWN-FINDING line)."""
     p = os.path.join(VERIF, "known_findings.json")
     if not os.path.exists(p):
         return {}
